@@ -61,6 +61,10 @@ func streamWF(c *Case) *WF {
 		// the producer also has an ordinary output next to the streamed one
 		w.Nodes[prod].Outs = append(w.Nodes[prod].Outs, OutSpec{Name: "o1", Pattern: "{i:a}.prod.o1"})
 	}
+	if t.Choose(simrt.StGen, 3, 0) == 1 {
+		// the consumer has an ordinary second in-port next to the streamed one
+		cons.Ins = append(cons.Ins, InSpec{Name: "b", From: []Edge{up}})
+	}
 	ci := addNode(w, cons)
 	if t.Choose(simrt.StGen, 2, 0) == 1 {
 		oneToOne(w, "post", Edge{ci, "o0"})
